@@ -117,6 +117,17 @@ func c07Geometry(c *fw.Ctx, idx int) {
 		return
 	}
 	c.SetInput(map[string]any{"geometry": g.String(), "geojson": clipStr(string(data), 700)})
+	// the returned bytes must stay what they are while other geometries are encoded
+	held := append([]byte{}, data...)
+	for k := 0; k < 2; k++ {
+		og := c07Model(r)
+		c.Guard("panic", func() { geojson.Marshal(og.BuildFlat()) })
+	}
+	c.Count("held_results_rechecked")
+	if !bytes.Equal(held, data) {
+		c.Fail("result-invalidated", "the slice returned by geojson.Marshal changed after later Marshal calls: now %s", clipStr(string(data), 300))
+		return
+	}
 	jv, dec, readable := geojsonExpect(g)
 	c.Count("kind_" + g.Kind.String())
 	if !g.IsEmpty() {
@@ -666,7 +677,7 @@ func init() {
 			{Name: "decoders", Quick: 150000, Thorough: 8000000, Run: c07Decoders, RawReplay: c07RawReplay},
 		},
 		Extra: fuzzExtra("C07", 2000000),
-		Require: []string{"roundtrips_compared", "format_cannot_carry_back", "with_empty_component_before_nonempty", "kind_GeometryCollection", "features", "feature_null_geometry", "feature_id_absent", "feature_collections", "numeric_ids",
+		Require: []string{"held_results_rechecked", "roundtrips_compared", "format_cannot_carry_back", "with_empty_component_before_nonempty", "kind_GeometryCollection", "features", "feature_null_geometry", "feature_id_absent", "feature_collections", "numeric_ids",
 			"decode_valid", "decode_structure-mutation", "decode_byte-mutation", "decode_deep-or-huge", "decode_random-bytes", "geometry_decoder_accepted", "geometry_decoder_error", "feature_decoder_accepted", "collection_decoder_accepted"},
 	})
 }
